@@ -16,9 +16,10 @@ Checked: bitwise equality (sha1 of bytes) of all results and all parameters of r
 parameters of every live object before/after each read-only operation; numpy / `random` states
 before/after each library operation; every seed-probe sample (k=0, >= 32 fair bits) of run 3
 differs from run 1.  The Lean model (driver op `c14.run`, token semantics) predicts for every
-operation the ordered calls to torch's random functions with element counts, whether torch's
-generator advances, which objects are written, the result kind, and the equality pattern of
-results / parameters; these predictions are compared with what the recorders observe.
+operation the calls to torch's random functions with element counts (only the element TOTAL per operation is
+compared with what the recorders observe), whether torch's generator advances, which objects are written, the
+result kind (none / value / raised; exception classes are counted only), and the equality pattern of
+results / parameters.
 """
 import json
 import math
@@ -83,7 +84,12 @@ RULE = ("case = one history: [different per-run prefix: foreign numpy/random see
         "array / 0-d tensor, every integer option (seed over the whole accepted range, num_visible/num_hidden/num_aux, k, num_samples, num_chains, burn_in, "
         "steps, epochs, pos/neg_batch_size, starting_epoch, period, size, num) as Python int / numpy.int64,int32,intp,uint8,(uint64) / 0-d integer array / "
         "0-d integer tensor (only the forms the clean tree accepts for that option), by keyword or as a random positional prefix of the documented order; "
-        "the objects are rebuilt in the runner process from two per-operation seeds (fseed, iseed) stored in the case, identically in all runs and in a replay")
+        "the objects are rebuilt in the runner process from two per-operation seeds (fseed, iseed) stored in the case, identically in all runs and in a replay.  "
+        "CHAIN BLOCK (every generated history, before the final probes): [set_random_seed(s), sample / Observable.sample(k, num, initial_state=X)] four times with the "
+        "same s on the same unchanged object, X = A, B (A with one bit flipped), A, A with overwrite=True; k = history index mod 3 (k = 0 returns the start chains "
+        "themselves): calls 1 and 3 are the same operation at the same stream position (must be bit-equal), call 2 differs only in the CONTENT of initial_state.  "
+        "FORWARDED API: the public methods of BinaryRBM / PurificationRBM called on the state (NeuralStateBase.__getattr__): evaluators as eval fwd_<name>, "
+        "state.gibbs_steps as batchGradient:fwd.  ENVIRONMENTS: corpus cases are re-executed with the three runner processes INSIDE each process-global environment")
 
 SEED_LO, SEED_HI = -2 ** 63, 2 ** 64  # torch.manual_seed accepts LO <= s < HI (established on the clean tree, re-measured below)
 SEED_SPECIALS = [0, 1, 2 ** 31 - 1, 2 ** 31, 2 ** 32 - 1, 2 ** 32, 2 ** 40, 2 ** 63 - 1, 2 ** 63, 2 ** 64 - 1, -1, -2 ** 31, -2 ** 63]
